@@ -116,6 +116,36 @@ func (t *tlFunc) collectF3() {
 	lv := t.e.lv
 	tests := t.emptinessTests()
 	per := map[string]int{}
+	// a bucket that comes in as a parameter and is put into the table as it is (Roaring32AsRoaring64) may be
+	// empty: the store needs an emptiness test on that parameter
+	tableMethod := t.fn.Signature.Recv() != nil && lv.isTableRef(t.fn.Signature.Recv().Type())
+	if lv.name == "64" && !tableMethod { // the table's own insertion helpers leave the test to their callers
+		for _, prm := range t.fn.Params {
+			if !lv.isSlotType(prm.Type()) {
+				continue
+			}
+			k := 0
+			t.resultUses(prm, func(u ssa.Instruction, kind, utab string, uidx ssa.Value) {
+				if kind != "slot" {
+					return
+				}
+				k++
+				site := &tlSite{rule: "F3", fn: t.fn, ctx: t.ctxS, instr: u, what: fmt.Sprintf("parameter %s stored as a bucket#%d", prm.Name(), k)}
+				guarded := false
+				for _, et := range tests {
+					if et.subj == ssa.Value(prm) && dominatesEdge(et.ifBlk, et.nonEmpty, u.Block()) {
+						guarded = true
+					}
+				}
+				if guarded {
+					site.status, site.note = "ok", "behind an IsEmpty test on the parameter"
+				} else {
+					site.status, site.note = "violation", "the caller's 32-bit bitmap is stored as a bucket without an IsEmpty test: an empty argument leaves an empty bucket in the table (IsEmpty() false with cardinality 0, Validate fails)"
+				}
+				t.e.addSite(site)
+			})
+		}
+	}
 	for _, b := range t.fn.Blocks {
 		if t.dead[b] {
 			continue
